@@ -17,7 +17,7 @@ def run(ctx):
         ctx.violation("the arm64 decoder driver crashed (a fatal error that recover() cannot catch): " + o[-800:], {"family": "a64", "kind": "crash", "tail": o[-2000:]})
         return
     lines = open(out).read().splitlines()
-    tally = {"ok": 0, "outside": 0, "words": 0}
+    tally = {"ok": 0, "outside": 0, "chunks": 0, "words": 0}
     for i in range(0, len(lines), 150000):
         part = lines[i:i + 150000]
         open(os.path.join(ctx.specdir(), "trace.ndjson"), "w").write("\n".join(part) + "\n")
@@ -25,8 +25,12 @@ def run(ctx):
         summ = [x for x in ctx.behaviours(t) if isinstance(x, dict) and x.get("summary")]
         if not summ:
             raise vlib.Broken("no summary from Trace_A64: " + t["out"][-800:])
-        for k in tally:
+        for k in ("ok", "outside", "chunks"):
             tally[k] += summ[0]["tally"][k]
+        chunks = [json.loads(x) for x in part if '"ev":"chunk"' in x.replace(" ", "")]
+        if len(chunks) != summ[0]["tally"]["chunks"]:
+            raise vlib.Broken("Trace_A64 judged %d chunk records, the driver wrote %d" % (summ[0]["tally"]["chunks"], len(chunks)))
+        tally["words"] += sum(c["words"] for c in chunks)   # every chunk record was judged by TLC (panics = 0, insts + errs = words)
         for what, idx in summ[0]["bad"]:
             e = json.loads(part[idx - 1])
             if e["ev"] == "chunk":
